@@ -5,6 +5,7 @@
 package gen
 
 import (
+	"fmt"
 	"strconv"
 	"strings"
 
@@ -70,6 +71,11 @@ func Str(s string) *Node {
 	return &Node{K: KStr, T: TS, S: s, Quote: q}
 }
 func Int(i int64) *Node { return &Node{K: KInt, T: TN, I: i} }
+
+// IntPadded is the integer literal i written with leading zeros (010 is ten).
+func IntPadded(i int64, width int) *Node {
+	return &Node{K: KInt, T: TN, I: i, S: fmt.Sprintf("%0*d", width, i)}
+}
 
 // Float takes the literal spelling (must contain '.') so that the text is
 // exactly what is printed.
@@ -337,6 +343,8 @@ func (s Style) print(b *strings.Builder, n *Node, parentPrec int, right bool) {
 		if n.I < 0 {
 			// the language has no negative literals
 			b.WriteString("(0 - " + strconv.FormatInt(-n.I, 10) + ")")
+		} else if n.S != "" {
+			b.WriteString(n.S) // a spelling with leading zeros: still a decimal literal
 		} else {
 			b.WriteString(strconv.FormatInt(n.I, 10))
 		}
